@@ -535,7 +535,9 @@ impl EliasFanoCursor<'_> {
             return self.advance_one();
         }
 
-        let target_idx = self.idx + k;
+        // Saturate: `idx + k` past usize::MAX is past the end of any sequence, so the
+        // exhaustion branch below is the right outcome (never wrap to a smaller index).
+        let target_idx = self.idx.saturating_add(k);
         if target_idx >= self.ef.len {
             self.idx = self.ef.len;
             return None;
